@@ -283,21 +283,25 @@ fn spline_case<T: Sp>(rng: &mut Rng, rep: &mut Report, idx: u64) {
         return;
     }
 
-    // ---- approximate(): replay the recursion tree from the halt log
+    // ---- approximate(): the statement's four clauses, decided on the
+    // returned polyline itself. (An earlier version replayed the library's
+    // exact recursion from the halt log and demanded its call order and the
+    // depth bound 10+⌊log2 len⌋: more than the statement says — a different
+    // bound, or levels bisected without asking, keep every clause true.)
     let scale = maxc as f32;
     let mode = rng.below(8);
     let thr = scale * (10.0f32).powi(-(1 + rng.below(8) as i32));
+    let never = mode == 1 && segs <= 2; // full depth: 2^bound leaves
     let log: RefCell<Vec<([f32; 4], bool)>> = RefCell::new(vec![]);
     let halt = |e: &T::Diff| -> bool {
         let c = T::dcomps(e);
         let m = c[..T::N].iter().fold(0.0f32, |a, x| a.max(x.abs()));
         let r = match mode {
             0 => true,
-            1 if segs <= 2 => false, // full depth: 2^(10+log2 len) leaves
-            2 => m < f32::NAN,       // NaN comparison: always false → bounded by depth
+            _ if never => false,
+            2 if segs <= 2 => m < f32::NAN, // NaN comparison: always false → bounded by depth
             _ => m < thr,
         };
-        let r = if mode == 2 && segs > 2 { m < thr } else { r };
         log.borrow_mut().push((c, r));
         r
     };
@@ -310,84 +314,123 @@ fn spline_case<T: Sp>(rng: &mut Rng, rep: &mut Report, idx: u64) {
     };
     rep.count("approximate.calls");
     let log = log.into_inner();
-    let max_dep = 10 + (npts as u32).ilog2();
-    // replay
-    struct Replay<'a, T: Sp> {
-        sp: &'a BezierSpline<T>,
-        log: &'a [([f32; 4], bool)],
-        pos: usize,
-        leaves: Vec<(f32, u32)>,
-        bad: Option<String>,
-    }
-    fn go<T: Sp>(r: &mut Replay<T>, a: f32, b: f32, dep: u32) {
-        if r.bad.is_some() {
-            return;
-        }
-        let mid = a + (b - a) * 0.5;
-        let leaf = if dep == 0 {
-            true
-        } else {
-            let Some((arg, res)) = r.log.get(r.pos).copied() else {
-                r.bad = Some(format!("the halt log ends early: interval [{a},{b}] at remaining depth {dep} was never offered to the caller's criterion"));
-                return;
-            };
-            r.pos += 1;
-            // the error handed to halt must be curve(mid) − midpoint of the chord
-            let (ap, bp, real) = (r.sp.eval(a), r.sp.eval(b), r.sp.eval(mid));
-            let want = T::dcomps(&real.sub(&ap.lerp(&bp, 0.5)));
-            if (0..T::N).any(|c| want[c].to_bits() != arg[c].to_bits() && !(want[c].is_nan() && arg[c].is_nan())) {
-                r.bad = Some(format!("halt was called with {:?} for [{a},{b}] but curve(mid) − chord midpoint is {:?}", &arg[..T::N], &want[..T::N]));
-                return;
-            }
-            res
-        };
-        if leaf {
-            r.leaves.push((a, dep));
-        } else {
-            go(r, a, mid, dep - 1);
-            go(r, mid, b, dep - 1);
-        }
-    }
-    let mut rp = Replay { sp: &sp, log: &log, pos: 0, leaves: vec![], bad: None };
-    go(&mut rp, 0.0, 1.0, max_dep);
-    if rp.bad.is_none() && rp.pos != log.len() {
-        rp.bad = Some(format!("halt was called {} times but a depth-first bisection of [0,1] with depth bound {max_dep} accounts for only {}", log.len(), rp.pos));
-    }
-    if let Some(b) = rp.bad {
-        rep.violation("spline.approximate_recursion_shape", b, cj(0.0).set("halt_mode", mode).set("halt_calls", log.len()));
+    rep.add("approximate.halt_calls", log.len() as u64);
+    let always_false = never || (mode == 2 && segs <= 2);
+    // (1) starts and ends exactly at the curve's endpoints
+    if out.len() < 2 {
+        rep.violation("spline.approximate_endpoints", format!("polyline of {} point(s)", out.len()), cj(0.0));
         return;
-    }
-    rep.add("approximate.halt_calls_replayed", log.len() as u64);
-    rep.add("approximate.leaves", rp.leaves.len() as u64);
-    if rp.leaves.iter().any(|l| l.1 == 0) {
-        rep.count("approximate.reached_depth_bound");
-    }
-    if out.len() != rp.leaves.len() + 1 {
-        rep.violation("spline.approximate_wrong_points", format!("returned {} points; the recursion has {} leaves (+1 end point)", out.len(), rp.leaves.len()), cj(0.0).set("halt_mode", mode));
-        return;
-    }
-    for w in rp.leaves.windows(2) {
-        if !(w[1].0 > w[0].0) {
-            rep.violation("spline.approximate_parameters_not_increasing", format!("leaf parameters {} then {}", w[0].0, w[1].0), cj(0.0));
-            return;
-        }
-    }
-    for (k, (a, _)) in rp.leaves.iter().enumerate() {
-        let want = sp.eval(*a).comps();
-        let got = out[k].comps();
-        if (0..T::N).any(|c| want[c].to_bits() != got[c].to_bits()) {
-            rep.violation("spline.approximate_wrong_points", format!("point {k} = {:?} is not the curve point at its dyadic parameter {a} ({:?})", &got[..T::N], &want[..T::N]), cj(*a).set("halt_mode", mode));
-            return;
-        }
     }
     let (first, last) = (out[0].comps(), out[out.len() - 1].comps());
     if (0..T::N).any(|c| first[c].to_bits() != pts[0][c].to_bits() || last[c].to_bits() != pts[npts - 1][c].to_bits()) {
         rep.violation("spline.approximate_endpoints", format!("polyline runs from {:?} to {:?}; the curve from {:?} to {:?}", &first[..T::N], &last[..T::N], &pts[0][..T::N], &pts[npts - 1][..T::N]), cj(0.0));
+        return;
+    }
+    // (2) curve points at strictly increasing dyadic parameters: fit the
+    // aligned dyadic partition of [0,1] whose break points evaluate, bit for
+    // bit, to the returned points. [a,b] is one piece iff the point after
+    // curve(a) is curve(b). With pairwise distinct points the fit is unique;
+    // with repeated values (constant, closed, lattice curves) a leaf-first fit
+    // is one of several and a failure further down is counted, not judged.
+    let bits = |v: &T| -> [u32; 4] {
+        let c = v.comps();
+        std::array::from_fn(|k| if k < T::N { c[k].to_bits() } else { 0 })
+    };
+    let ob: Vec<[u32; 4]> = out.iter().map(&bits).collect();
+    let distinct = {
+        let mut s = ob.clone();
+        s.sort();
+        s.windows(2).all(|w| w[0] != w[1])
+    };
+    struct Fit<'a, T: Sp> {
+        sp: &'a BezierSpline<T>,
+        ob: &'a [[u32; 4]],
+        pieces: Vec<(f32, f32, u32)>,
+        bad: Option<String>,
+    }
+    const DEPTH_CAP: u32 = 30;
+    fn fit<T: Sp>(f: &mut Fit<T>, i: usize, a: f32, b: f32, dep: u32, bits: &dyn Fn(&T) -> [u32; 4]) -> usize {
+        if f.bad.is_some() {
+            return i;
+        }
+        if i + 1 >= f.ob.len() {
+            f.bad = Some(format!("the polyline ends at point {i} although [{a},{b}] is still to be covered"));
+            return i;
+        }
+        let end = if b == 1.0 { f.ob[f.ob.len() - 1] } else { bits(&f.sp.eval(b)) };
+        let last_piece_ok = b != 1.0 || i + 2 == f.ob.len();
+        if f.ob[i + 1] == end && last_piece_ok {
+            f.pieces.push((a, b, dep));
+            return i + 1;
+        }
+        if dep >= DEPTH_CAP {
+            f.bad = Some(format!("point {} = {:?} is not a curve point at any dyadic parameter of [{a},{b}] down to 2^-{DEPTH_CAP}", i + 1, f.ob[i + 1].map(f32::from_bits)));
+            return i;
+        }
+        let mid = a + (b - a) * 0.5;
+        let j = fit(f, i, a, mid, dep + 1, bits);
+        fit(f, j, mid, b, dep + 1, bits)
+    }
+    let mut ft = Fit { sp: &sp, ob: &ob, pieces: vec![], bad: None };
+    let used = fit(&mut ft, 0, 0.0, 1.0, 0, &bits);
+    if ft.bad.is_none() && used + 1 != out.len() {
+        ft.bad = Some(format!("{} points returned but the dyadic partition accounts for {}", out.len(), used + 1));
+    }
+    if let Some(b) = ft.bad {
+        if distinct {
+            rep.violation("spline.approximate_wrong_points", b, cj(0.0).set("halt_mode", mode).set("points", out.len()));
+        } else {
+            rep.count("approximate.unjudged(repeated point values: parameters ambiguous)");
+        }
+        return;
+    }
+    rep.add("approximate.pieces", ft.pieces.len() as u64);
+    // (3) every piece met the caller's criterion — evaluated here on the
+    // documented error, curve(mid) − chord midpoint, with a rounding slack,
+    // or found in the log as a call that said true — or sits at the depth
+    // bound, which is whatever depth the deepest piece has
+    let bound = ft.pieces.iter().map(|p| p.2).max().unwrap_or(0);
+    let slack = 8e-6 * scale;
+    let mut unmet_at_bound = 0u64;
+    for &(a, b, dep) in &ft.pieces {
+        let mid = a + (b - a) * 0.5;
+        let (ap, bp, real) = (sp.eval(a), sp.eval(b), sp.eval(mid));
+        let e = T::dcomps(&real.sub(&ap.lerp(&bp, 0.5)));
+        let m = e[..T::N].iter().fold(0.0f32, |x, y| x.max(y.abs()));
+        let met = match mode {
+            0 => true,
+            _ if always_false => false,
+            _ => m < thr + slack,
+        };
+        if met {
+            continue;
+        }
+        if dep == bound {
+            unmet_at_bound += 1;
+            continue;
+        }
+        if !always_false && log.iter().any(|(c, r)| *r && (0..T::N).all(|k| (c[k] - e[k]).abs() <= slack)) {
+            continue;
+        }
+        let msg = format!("piece [{a},{b}] (depth {dep}) has error {m:e}, which does not meet the criterion (threshold {thr:e}), yet it was not bisected although pieces go down to depth {bound}");
+        if distinct {
+            rep.violation("spline.approximate_piece_neither_met_nor_at_bound", msg, cj(a).set("halt_mode", mode).set("points", out.len()));
+        } else {
+            rep.count("approximate.unjudged(repeated point values: parameters ambiguous)");
+        }
+        return;
+    }
+    if unmet_at_bound > 0 {
+        rep.count("approximate.reached_depth_bound");
+        rep.count(&format!("approximate.depth_bound_observed.{bound}(segments={segs})"));
+    }
+    if distinct {
+        rep.count("approximate.judged_with_unique_parameters");
     }
 }
 
 pub fn run(cfg: &Cfg, rep: &mut Report) {
-    rep.rule = "case = one control polygon (f32, Vec2, Vec3, Point2, Point3, Color4f, Color3f, Angle; magnitudes 1e-3..1e4, curves of small extent far from the origin, per-point magnitudes over twelve decades; coincident, collinear, repeated, lattice and random controls): cubic Bézier at 12 parameters from a palette (<0, 0, ±ulp, 1, >1, k/n ± ulp, random) + NaN; splines of 1..8 segments at every join k/n and its f32 neighbours plus the palette, then approximate() with halt ∈ {always, never, NaN-comparison, thresholds 1e-1..1e-8·scale} whose call log is replayed as a depth-first bisection; non-trivial = not all controls equal; distinct by hash of the controls".into();
+    rep.rule = "case = one control polygon (f32, Vec2, Vec3, Point2, Point3, Color4f, Color3f, Angle; magnitudes 1e-3..1e4, curves of small extent far from the origin, per-point magnitudes over twelve decades; coincident, collinear, repeated, lattice and random controls): cubic Bézier at 12 parameters from a palette (<0, 0, ±ulp, 1, >1, k/n ± ulp, random) + NaN; splines of 1..8 segments at every join k/n and its f32 neighbours plus the palette, then approximate() with halt ∈ {always, never, NaN-comparison, thresholds 1e-1..1e-8·scale}: the aligned dyadic partition is fitted to the returned points bit for bit and every piece must meet the criterion or sit at the deepest level present; non-trivial = not all controls equal; distinct by hash of the controls".into();
     rep.assumptions.push("tolerance 1e-5·max|control| for values (2e-5 plus a segment-parameter rounding term for splines), 12× that for tangents; spline tangent is taken w.r.t. the segment-local parameter, as the code documents".into());
     rep.run_stream(cfg, 0, "cubic_bezier", cfg.n(120_000, 12_000_000), |rng, i, rep| match i % 8 {
         6 => bezier_case::<Color3f>(rng, rep, i),
@@ -472,7 +515,9 @@ pub fn run(cfg: &Cfg, rep: &mut Report) {
     rep.floor("spline.joins_checked", 50_000);
     rep.floor("approximate.calls", 20_000);
     rep.floor("approximate.reached_depth_bound", 500);
-    rep.floor("approximate.halt_calls_replayed", 1_000_000);
+    rep.floor("approximate.halt_calls", 1_000_000);
+    rep.floor("approximate.judged_with_unique_parameters", 10_000);
+    rep.floor("approximate.pieces", 1_000_000);
     for s in 1..=8 {
         rep.floor(&format!("spline.segments_{s}"), 1_000);
     }
